@@ -316,6 +316,7 @@ func runC12(c *Ctx) {
 		}
 	}
 	ruleParamEnable(c)
+	ruleParserCursor(c)       // a parameter is accepted/refused by its own rule only if it reaches the parameter switch: also after the null reverse-path
 	ruleProtocolErrorSites(c) // "refused with 504": one reply, however many parameters were refused before, and the connection goes on
 	// AUTH / STARTTLS handlers use the same predicates as the advertisement
 	ruleSizeParam(c) // the advertised SIZE limit is the one MAIL enforces
